@@ -46,6 +46,9 @@ DEEP = [
 
 
 def run(ctx, log):
+    # the same small programs at every size around the widths the implementation encodes things in (closed-form results)
+    progcheck.run_scale(ctx, log, ['args', 'locals'])
+    progcheck.run_code_boundary(ctx, log)
     rng = ctx.rng
     srcs, asts = progcheck.gen_sources(ctx, 500 if ctx.quick else 8000, max_depth=3)
     base = DIRECTED + progcheck.evaluation_order_family() + srcs
